@@ -40,7 +40,9 @@ def baseline_ok(copy):
     if r.returncode: return False, 'does not compile: ' + (r.stdout + r.stderr)[-300:]
     r = subprocess.run(['ctest', '--test-dir', b, '-j8', '--timeout', '120'], capture_output=True, text=True)
     shutil.rmtree(b, ignore_errors=True)
-    if r.returncode: return False, 'baseline tests fail: ' + ' '.join(l.split()[-1] for l in r.stdout.splitlines() if 'Failed' in l or '***' in l)[:200]
+    if r.returncode:
+        import re
+        return False, 'baseline tests fail: ' + ' '.join(sorted(set(re.findall(r'(test_\w+)', ' '.join(l for l in r.stdout.splitlines() if 'Failed' in l or '***' in l)))))[:300]
     return True, 'compiles, 30/30 baseline tests pass'
 
 def run_check(pid, copy, seed='1'):
